@@ -440,4 +440,22 @@ theorem gaussian_delay (g : Gen σ α) (m : SimModel α) (p : List α) (j mu sd 
               + vecGet p mu, (g (g s).2).2) := by
   unfold computeDelay; rw [h]; rfl
 
+/-- the gamma delay is the Marsaglia–Tsang sampler applied to the model's own `k` and `θ` parameters, reading the
+stream from where the loop left it (at most 10000 rejection rounds, after which the simulation reports a failure rather
+than a number). -/
+theorem gamma_delay (g : Gen σ α) (m : SimModel α) (p : List α) (j k th : Nat) (s : σ)
+    (h : m.delays.getD j .none = .gamma k th) :
+    computeDelay g m p j s = gammaRv g m.twoPi (vecGet p k) (vecGet p th) 10000 s := by
+  unfold computeDelay; rw [h]
+
+/-- **deterministic delays leave the random stream alone**: with no delay or a fixed delay the uniforms that follow are
+the ones that would have followed anyway, so adding a fixed delay to a reaction does not change which reactions fire or
+when (only when their delayed part arrives). -/
+theorem deterministic_delay_stream (g : Gen σ α) (m : SimModel α) (p : List α) (j : Nat) (s : σ)
+    (h : m.delays.getD j .none = .none ∨ ∃ d, m.delays.getD j .none = .fixed d) :
+    ∃ τ, computeDelay g m p j s = some (τ, s) := by
+  rcases h with h | ⟨d, h⟩
+  · exact ⟨0, no_delay g m p j s h⟩
+  · exact ⟨vecGet p d, fixed_delay g m p j d s h⟩
+
 end Bioscrape.C10
